@@ -487,7 +487,7 @@ class Engine:
             vals.append(x)
             if len(vals) > limit:
                 s.pop()
-                raise Unsupported('more than %d feasible values for an address/selector' % limit)
+                raise Unsupported('more than %d feasible values for an address/selector %s' % (limit, v))
             s.add(v != x)
         s.pop()
         return vals
@@ -899,13 +899,21 @@ class Engine:
         return None
 
     def goto(self, st, fr, label, ins):
-        n = fr.visits.get(label, 0) + 1
-        fr.visits[label] = n
-        if n > self.loop_bound:
-            self.oblige(st, 'bound', None, 'loop:%s:%s' % (fr.fn.name[-24:], label), ins,
-                        'loop bound %d exceeded at %s' % (self.loop_bound, self.loc(ins)))
-            st.status = 'bound'
-            return
+        ent = fr.visits.get(label)
+        if ent is None:
+            fr.visits[label] = (1, len(st.pc), 0)
+        else:
+            n, plen, sym = ent
+            n += 1
+            if len(st.pc) != plen:
+                sym += 1        # a symbolic decision was taken since the last visit: a "real" iteration
+            fr.visits[label] = (n, len(st.pc), sym)
+            if sym > self.loop_bound or n > self.concrete_loop_bound:
+                self.oblige(st, 'bound', None, 'loop:%s:%s' % (fr.fn.name[-24:], label), ins,
+                            'loop bound (%d symbolic / %d total iterations) exceeded at %s' % (
+                                self.loop_bound, self.concrete_loop_bound, self.loc(ins)))
+                st.status = 'bound'
+                return
         fr.prev = fr.block
         fr.block = label
         fr.idx = 0
@@ -961,7 +969,10 @@ class Engine:
         v = simp(v)
         if is_conc(v):
             return [(st, v)]
-        vals = self.values_of(st, v)
+        try:
+            vals = self.values_of(st, v)
+        except Unsupported as e:
+            raise Unsupported('%s at %s' % (e, self.loc(ins)))
         if not vals:
             st.status = 'infeasible'
             return []
@@ -1431,3 +1442,4 @@ class Engine:
     max_spurious = 1
     stop_on_assert = False
     mark_hook = None
+    concrete_loop_bound = 200
